@@ -40,6 +40,10 @@ CLAIMED = {
         text="control scripts (dynamic-wind nesting <= 4, 3 continuations each invoked <= 2 times incl. re-entry, parameterize with/without converter, handlers that return/escape/re-raise, raise and raise-continuable, guard with matching/non-matching/re-raising clauses) rendered as one top-level expression; an enumerated family of small scripts plus Hypothesis-drawn larger ones; the trace must equal the one produced by the CPS reference interpreter (wind list, handler stack and parameterisation from R7RS 6.7/6.10/6.11/7.3); exploration only",
         note="trusted: refscheme.py; scripts stay inside one top-level expression; payloads of secondary exceptions are compared only as 'non-symbol'",
         technique="property-based differential testing against a reference model of the R7RS wind/handler/parameter semantics (enumeration + Hypothesis)"),
+    "C07": dict(
+        text="programs assembled from 20 macro-use scenarios over 11 macro shapes (binding-introducing, free references to helpers / standard procedures / core keywords, nested ellipsis, literals, macro-defining macros, let-syntax and letrec-syntax closing over locals, local shadowing of if) defined as syntax-rules / er / sc / rsc transformers, nested in wrapper binders; every user binder is renamed to a fresh name, a name used inside a macro template, a core keyword or a standard procedure (admissible = not used by user-written code in scope); the renamed program must print what the un-renamed one prints, and both must print the value computed in Python; exploration only",
+        note="trusted: the hand-written expected-value functions of the scenarios; renaming targets respect the admissibility rule of DESIGN.md (reader abbreviations count as uses of quote etc.)",
+        technique="metamorphic property-based testing (alpha-renaming invariance) with an absolute expected value per scenario, Hypothesis-shrunk"),
 }
 
 NOT_YET = "check not built yet in this session (planned, see DESIGN.md section 4)"
